@@ -23,6 +23,11 @@ def install(I):
     I.intrinsics['verif_secretBoxKey'] = secret_box_key
 
 
+def _c05_coop(pre, I):
+    from wesym import coop
+    coop.install(I, preemptions=pre)
+
+
 def main():
     t = tier()
     chk = Check('C05', c01.PKGS, 'pkg/secretstore',
@@ -52,6 +57,19 @@ def main():
             dj.append(Job(PR + 'VerifC05Distribute', (sc, st), cfg=cfg, max_paths=400000, shard=(i, K) if K > 1 else None,
                           label='VerifC05Distribute(%d,%d)#%d/%d' % (sc, st, i, K)))
     res += chk2.run_jobs(dj)
+    chk2.cleanup()
+    # exactness under concurrent FIRST use of a group (the own chain key is created lazily): the harness of C09 under the
+    # symbolic scheduler -- every announcement handed out describes the chain key the device really uses
+    import functools, c02
+    from wesym import coop as _coop
+    chk3 = Check('C05', c01.PKGS, 'pkg/secretstore',
+                 ['secretstore/zz_verif_env.go', 'secretstore/zz_verif_rand.go', 'C09/zz_verif_c09_coop.go'],
+                 installers=[crypto.install, crypto.install_proto, c02.install], init_pkgs=[MOD + '/pkg/errcode'], prelude_pkgname='secretstore')
+    chk3.load([P + 'VerifC09FirstUse'])
+    FK = 4
+    res += chk3.run_jobs([Job(P + 'VerifC09FirstUse', (0,), cfg=cfg, installers=[functools.partial(_c05_coop, 2)], shard=(i, FK), max_paths=400000,
+                              label='VerifC09FirstUse(0)[pre<=2]#%d/%d' % (i, FK)) for i in range(FK)])
+    chk = chk3
     chk = chk2
     finish(chk, res, t,
            explanation='Symbolic execution of GetShareableChainKey / encryptDeviceChainKey / decryptDeviceChainKey / groupIDToNonce / '
